@@ -139,6 +139,19 @@ Verdict(c) ==   \* <<ok?, expected-not-logged, logged-not-expected, #expected ro
           IN IF diff # {} THEN LET k == CHOOSE k \in diff : TRUE IN <<FALSE, <<k>> \o Pick(Rx[k] \ Fy[k]), <<k>> \o Pick(Fy[k] \ Rx[k]), Cardinality(Ex.rows) + Cardinality(Ex.rp), 0>>
              ELSE IF gap # {} THEN LET k == CHOOSE k \in gap : TRUE IN <<FALSE, <<"MODELGAP", k>> \o Pick(Ex[k] \ Fy[k]), <<"MODELGAP", k>> \o Pick(Fy[k] \ Ex[k]), Cardinality(Ex.rows) + Cardinality(Ex.rp), 0>>
              ELSE <<TRUE, <<>>, <<>>, Cardinality(Ex.rows) + Cardinality(Ex.rp), 0>>
+     [] Part = "c5" ->   \* C05: every call returned normally and every reported offset is valid (judged from the raw byte offsets)
+          LET Valid(k, a, b) == LET t == Texts[k] IN a >= 0 /\ a <= b /\ b <= ByteLen(t) /\ IsBoundary(t, a) /\ IsBoundary(t, b)
+              PairsOk(k, sq) == \A q \in 1..(Len(sq) \div 2) : Valid(k, sq[2 * q - 1], sq[2 * q]) \/ (sq[2 * q - 1] = -1 /\ sq[2 * q] = -1)
+              SpansOk(k, sq) == Len(sq) % 2 = 0 /\ \A q \in 1..(Len(sq) \div 2) : Valid(k, sq[2 * q - 1], sq[2 * q])
+              badIter == {r \in SetOf(c.fi) \cup SetOf(c.ci) \cup SetOf(c.sp) : r[2] \in {2, 3} \/ ~SpansOk(r[1], SubSeq(r, 4, Len(r)))}
+              badSpn == {r \in SetOf(c.spn) : r[3] \in {2, 3} \/ ~SpansOk(r[1], SubSeq(r, 5, Len(r)))}
+              badCells == {r \in SetOf(c.cells) : r[3] = 3 \/ r[6] = 3 \/ (r[3] = 0 /\ ~Valid(r[1], r[4], r[5])) \/ (r[6] = 0 /\ ~Valid(r[1], r[7], r[8]))}
+              badCells0 == {r \in SetOf(c.cells0) : r[2] = 3 \/ r[3] = 3 \/ r[6] = 3 \/ (r[3] = 0 /\ ~Valid(r[1], r[4], r[5])) \/ (r[6] = 0 /\ ~Valid(r[1], r[7], r[8]))}
+              badRows == {r \in SetOf(c.rows) : r[3] = 3 \/ (r[3] = 0 /\ (~PairsOk(r[1], SubSeq(r, 4, Len(r))) \/ ~Valid(r[1], r[4], r[5])))}
+              badRp == {r \in SetOf(c.rp) : r.end = 3}
+              bad == badIter \cup badSpn \cup badCells \cup badCells0 \cup badRows
+          IN <<bad = {} /\ badRp = {}, <<>>, IF bad # {} THEN Pick(bad) ELSE IF badRp # {} THEN <<"replace panicked">> ELSE <<>>,
+               Cardinality(SetOf(c.rows)) + Cardinality(SetOf(c.fi)), 0>>
      [] Part = "sp" ->
           LET exp == TLCEval(ExpectedSP(c.ast, c.ng))  log == LoggedSP(c)
           IN <<exp = log, Pick(exp \ log), Pick(log \ exp), Cardinality(exp), 0>>
